@@ -41,7 +41,6 @@ impl Display for ArgDesc {
 }
 
 /// Defines a function or method for the resynth stdlib
-#[derive(Debug)]
 pub struct FuncDef {
     pub name: &'static str,
     pub return_type: ValType,
@@ -53,6 +52,21 @@ pub struct FuncDef {
     pub collect_type: ValType,
     pub exec: fn(args: Args) -> Result<Val, Error>,
     pub doc: &'static str,
+}
+
+/// The function pointers are left out: their addresses differ from run to run, and a FuncDef ends
+/// up in the "discarded value" warning
+impl Debug for FuncDef {
+    fn fmt(&self, f: &mut Formatter<'_>) -> std::fmt::Result {
+        f.debug_struct("FuncDef")
+            .field("name", &self.name)
+            .field("return_type", &self.return_type)
+            .field("args", &self.args)
+            .field("min_args", &self.min_args)
+            .field("collect_type", &self.collect_type)
+            .field("doc", &self.doc)
+            .finish()
+    }
 }
 
 impl Eq for FuncDef {}
